@@ -73,6 +73,14 @@ inline void sem_fail(const char* kind, const std::string& msg) {
     if (G().oracle & 1) vh::fail_here(kind, msg);
     else left_to_other_check();
 }
+// A semantic failure that does not put the state in doubt (the tree itself is intact, e.g. a wrong iterator
+// conversion): reported under C01, but the state is NOT made terminal, so that neither check loses the states behind it.
+inline void sem_fail_nonterminal(const char* kind, const std::string& msg) {
+    if (!(G().oracle & 1)) return;
+    vh::fail_here(kind, msg);
+    vh::stat_add("failing_cases", -1);
+    vh::stat_add("nonterminal_failures");
+}
 inline void str_fail(const char* kind, const std::string& msg) {
     if (G().oracle & 2) vh::fail_here(kind, msg);
     else left_to_other_check();
